@@ -168,7 +168,7 @@ func c12FamilyScenarioSig(c *core.Ctx, family, class string, sc goxScenario, fin
 			c.Violate(family+":"+class+":deadlock", fmt.Sprintf("family %s, scenario %s: every live task is blocked under choices %v", family, sc.Name, choices),
 				c12FamPayload{Family: family, Class: class, Scenario: sc, Choices: choices, Fine: fine, MapDev: mapDev})
 		}
-		judge(fmt.Sprintf("%d workers, choices %v", sc.CPU, choices), choices, false, got)
+		judge(fmt.Sprintf("%d workers, %s", sc.CPU, c12Choices(choices)), choices, false, got)
 	})
 	c.EvalN(runs+int64(e.Executions), runs-1+nontrivial)
 	c.Add(family+"_scenarios", 1)
@@ -184,6 +184,20 @@ func c12FamilyScenarioSig(c *core.Ctx, family, class string, sc goxScenario, fin
 	if e.Divergences > 0 {
 		c.Incomplete(fmt.Sprintf("family %s, scenario %s: %d executions diverged from their choice vector (harness nondeterminism); not covered", family, sc.Name, e.Divergences))
 	}
+}
+
+// c12Choices prints a choice vector by its non-default entries.
+func c12Choices(choices []int) string {
+	var parts []string
+	for i, ch := range choices {
+		if ch != 0 {
+			parts = append(parts, fmt.Sprintf("alternative %d at choice point %d", ch, i))
+		}
+	}
+	if len(parts) == 0 {
+		return fmt.Sprintf("all %d choices default", len(choices))
+	}
+	return strings.Join(parts, ", ") + fmt.Sprintf(" (of %d points)", len(choices))
 }
 
 // c12FamilyReplay re-executes the case of a family's violation; false if the payload is not a family's.
